@@ -2,7 +2,7 @@
 domain in which multiplication does not commute, used to decide "operands are never reordered".
 
 A value is a finite map  word (tuple of generator names) -> non-zero Fraction.  `+`, `-`, unary
-`-`, `*` (concatenation of words, distributive), `**` with a small non-negative integer exponent and
+`-`, `*` (concatenation of words, distributive), `**` with a non-negative integer exponent (NCTooBig beyond the size limits) and
 `/` by a number are defined; everything else raises TypeError, so a computation that needs more
 has no value here and the oracle that uses this domain has no verdict on it.  Two polynomials are
 equal iff the maps are equal; a number is the polynomial with that coefficient at the empty word.
@@ -100,8 +100,10 @@ class NCPoly:
         return NCPoly({w: c / Fraction(other) for w, c in self.terms.items()})
 
     def __pow__(self, n):
-        if isinstance(n, bool) or not isinstance(n, int) or n < 0 or n > 6:
+        if isinstance(n, bool) or not isinstance(n, int) or n < 0:
             return NotImplemented
+        if n > LIMIT_DEGREE:
+            raise NCTooBig()          # defined, but outside what this domain computes: no verdict
         r = NCPoly({(): Fraction(1)})
         for _ in range(n):
             r = NCPoly._mul(r, self)
